@@ -42,7 +42,10 @@ def any_amount(rng, b):
             return "%016x" % (rng.randint(1, (1 << 52) - 1) | (rng.randint(0, 1) << 63)), c
         x = am.log_uniform(rng, -300, 300)
         return f64_bits(float(x) * (-1 if rng.random() < 0.3 else 1)), c
-    c = rng.choice(["zero", "short_dec", "small_int", "frac18", "huge", "log_uniform", "trailing_zeros"])
+    c = rng.choice(["zero", "short_dec", "small_int", "frac18", "huge", "log_uniform", "trailing_zeros", "one_variants"])
+    if c == "one_variants":
+        # numerically one (or minus one) with different stored fractional digits
+        return rng.choice(["1:0", "10:1", "100:2", "1000000:6", "-1:0", "-10:1", "1000000000000000000:18"]), c
     if c == "zero":
         return rng.choice(["0:0", "0:7", "0:18"]), c
     if c == "short_dec":
